@@ -168,6 +168,7 @@ def run(tier, seed, replay=None):
     C.clean_cases("c17")
 
     WHAT = {1: "a use-site projection occurs although use-site variance is disabled",
+            11: "a covariant bounded projection (the shape to_type_variable_free produces) occurs although use-site variance is disabled",
             2: "a contravariant projection occurs although use-site contravariance is disabled",
             3: "a bounded type parameter occurs although bounded type parameters are disabled",
             4: "a function declares type parameters although parameterized functions are disabled",
@@ -178,8 +179,10 @@ def run(tier, seed, replay=None):
         pr = programs[gi]
         binp = os.path.join(C.REPLAYS, "C17", "prog-%d-%s-%d.bin" % (pr["combo"], pr["lang"], pr["seed"]))
         open(binp, "wb").write(pr["pickled"])
-        rep.violation("switch", "%s, flags %s, seed %d: %s" % (pr["lang"], pr["flags"], pr["seed"], WHAT.get(code, code)),
+        rep.violation("switch-tvf" if (code == 11 and not pr["flags"][2]) else "switch",
+                      "%s, flags %s, seed %d: %s" % (pr["lang"], pr["flags"], pr["seed"], WHAT.get(code, code)),
                       dict(lang=pr["lang"], flags=pr["flags"], seed=pr["seed"], program_bin=binp, code=code,
+                           shape="switch-tvf" if (code == 11 and not pr["flags"][2]) else "switch",
                            coq_term=ir2coq.coq_node(pr["node"])[:20000]))
     for i in vm:
         rep.violation("correspondence", "_get_type_arg_variance differs from the model on %s" % (dv[i],),
